@@ -35,6 +35,7 @@ def plan(tier, seed):
         for op in sorted(OPS):
             rpt = OPS[op].get('repeat_q' if q else 'repeat_t', 250 if q else 1000)
             units.append({'kind': 'op', 'op': op, 'repeat': rpt if rep == 0 else min(rpt, 40), 'rep': rep, 'weight': 3})
+        units.append({'kind': 'rand-bytes', 'sizes': [1, 8, 16, 32, 48, 64, 65, 255, 256, 257, 300, 512, 513, 1024, 2048, 4096, 4097, 65536], 'rep': rep, 'weight': 2})
         units.append({'kind': 'ctx-reuse', 'count': 200 if q else 1500, 'fail_draws': [0, 1, 15, 31] if q else list(range(32)), 'rep': rep, 'weight': 4})
         for proto in ('tlcp', 'tls12', 'tls13'):
             for role in ('client', 'server'):
@@ -638,6 +639,47 @@ def u_ctx_reuse(ctx, u):
     ctx.sample({'op': name, 'signatures_on_one_context': n, 'refill_draws_failed': len(u['fail_draws'])})
 
 
+def u_rand_bytes(ctx, u):
+    """rand_bytes itself, for request sizes around and beyond one getentropy call (256 bytes): when it reports success, every
+    16-byte block of the output depends on the entropy stream (two streams differ in every block), the same stream gives the
+    same bytes whatever the buffer held before, and a failed draw makes it report failure."""
+    lib, sh = ctx.lib, ctx.shim
+    base = 0x7a7a + u['_i'] + (ctx.seed << 24)
+    for n in u['sizes']:
+        def call(seed, fill, fail_at=-1):
+            sh.vf_entropy_seed(ctypes.c_uint64(seed))
+            if fail_at >= 0:
+                sh.vf_entropy_fail_at(fail_at, 0)
+            b = ctx.buf(n, fill=fill)
+            ctx.begin(['rand_bytes', n, seed, fail_at])
+            r = lib.rand_bytes(b, n)
+            out = b.raw()
+            draws, failed = sh.vf_entropy_draws(), sh.vf_entropy_failed()
+            sh.vf_entropy_fail_at(-1, 0)
+            b.free()
+            return r, out, draws, failed
+        r1, o1, d1, _ = call(base, 0xA5)
+        if r1 != 1:
+            ctx.stat('info_rand_bytes_refused_size')
+            ctx.ok()
+            ctx.nontrivial('rand_bytes', n, 'refused')
+            continue
+        r2, o2, _, _ = call(base, 0x5A)
+        r3, o3, _, _ = call(base + 1, 0xA5)
+        ctx.check(r2 == 1 and o2 == o1, 'determinism:same-stream-different-output:rand_bytes', size=n,
+                  first_difference=next((i for i in range(n) if o1[i] != o2[i]), None) if r2 == 1 else None)
+        same_blocks = [i for i in range(0, n, 16) if n - i >= 8 and o1[i:i + 16] == o3[i:i + 16]] if r3 == 1 else []
+        ctx.check(r3 == 1 and not same_blocks, 'dependence:ephemeral-value-independent-of-entropy:rand_bytes', size=n, blocks_equal_at=same_blocks[:6])
+        ctx.check(d1 > 0, 'clean:operation-failed-or-drew-no-entropy:rand_bytes', size=n)
+        for i in range(d1):
+            rf, of, _, failed = call(base, 0xA5, fail_at=i)
+            if failed:
+                ctx.check(rf != 1, 'fail-open:success-despite-failed-draw:rand_bytes', size=n, draw=i, of=d1)
+                ctx.stat('faults_injected')
+        ctx.nontrivial('rand_bytes', n, d1)
+    ctx.sample({'op': 'rand_bytes', 'sizes': list(u['sizes'])})
+
+
 def u_handshake(ctx, u):
     proto = T.PROTOS[u['proto']]
     creds = T.Creds(ctx, 'c18-%s-%s' % (u['proto'], u['role']), 1, now=FIXED_TIME + 7200)
@@ -691,4 +733,4 @@ def u_handshake(ctx, u):
 
 
 def run_unit(ctx, u):
-    {'op': u_op, 'handshake': u_handshake, 'ctx-reuse': u_ctx_reuse}[u['kind']](ctx, u)
+    {'op': u_op, 'handshake': u_handshake, 'ctx-reuse': u_ctx_reuse, 'rand-bytes': u_rand_bytes}[u['kind']](ctx, u)
